@@ -142,6 +142,9 @@ INT_POOLS = {
     "mult8": [8 * i for i in range(16)],
     "mult32": [32 * i for i in range(16)],
     "negs": [-1, -2, 0, 1, 2, -3, 3, 7, -8, 8, 15, 16, -16, 31, 32, 64],
+    # pairs of ints with EQUAL hashes in CPython: hash(-1) == hash(-2), hash(k) == hash(k + 2**61 - 1)
+    "collide": [-1, -2, 0, 2 ** 61 - 1, 1, 2 ** 61, 2, 2 ** 61 + 1, 3, 2 ** 61 + 2, 4, 2 ** 61 + 3, 5, 2 ** 61 + 4, 6,
+                2 ** 61 + 5],
     "big": [2 ** 61 - 1, 2 ** 61 - 2, 2 ** 61, 2 ** 61 + 1, 10 ** 12, 10 ** 12 + 8, 2 ** 31, 2 ** 31 - 1, 2 ** 63, 5, 13,
             21, 29, 37, 45, 53],
 }
@@ -173,6 +176,8 @@ def _pool(kind, n):
             cand = (8 if kind == "mult8" else 32) * (16 + k)
         elif kind == "negs":
             cand = -(20 + k)
+        elif kind == "collide":
+            cand = (7 + k // 2) if k % 2 == 0 else (2 ** 61 + 6 + k // 2)
         elif kind == "big":
             cand = 2 ** 61 + 100 + 8 * k
         else:
@@ -184,9 +189,14 @@ def _pool(kind, n):
 
 
 @st.composite
-def element_names(draw, n, kinds=("dense", "dense1", "mult8", "mult32", "negs", "big", "str", "strodd", "mixedstr")):
+def element_names(draw, n, kinds=("dense", "dense1", "mult8", "mult32", "negs", "big", "str", "strodd", "mixedstr",
+                                  "collide")):
     kind = draw(st.sampled_from(kinds))
     pool = _pool(kind, n)
+    if kind == "collide":
+        # keep colliding partners together: the first names of the pool, in a drawn order
+        k = max(2, n + (n % 2))
+        return kind, list(draw(st.permutations(pool[:k])))[:n]
     if kind == "mixedstr":
         # string names of which most are integer-like; the name "a" is always part of the dataset (datasets() sees to
         # it), so the dataset keeps strings, while many of its sub-problems hold integer-like names only
